@@ -306,6 +306,14 @@ def build_ws(mods):
             raise Invalid("no b")
         pk["b"]["targets"][0].update(proc_macro=True, declare=True)
 
+    # In edition 2015 cargo turns auto-discovery of a target type off as soon as one target of
+    # that type is declared; so a declared target makes every target of its section declared.
+    for p in pk.values():
+        declared_sections = {HEADER[t["kind"]] for t in p["targets"] if t["declare"] and t["kind"] != "build"}
+        for t in p["targets"]:
+            if t["kind"] != "build" and HEADER[t["kind"]] in declared_sections:
+                t["declare"] = True
+
     # workspace table
     member_dirs = [os.path.relpath(p["dir"], ws) for p in pk.values() if p["member"] and p["dir"] != ws]
     if shape != "plain":
@@ -1069,7 +1077,6 @@ def main():
         }
         if interesting < 2:
             print("[C18] vacuous run: fewer than 2 cases reached the stand-in", file=sys.stderr)
-            run.finish()  # writes evidence
             sys.exit(2)
         run.finish()
 
